@@ -177,7 +177,6 @@ def hasFlag (sp : SpanM) (f : Nat) : Bool := (sp.flags / f) % 2 == 1
 /-- Why a generator span and the tree node at the same ordinal differ. -/
 def reasonOfSpan (sp : SpanM) : Option String :=
   if sp.site == "D" || sp.site == "format" then some "unranged-commodity-site"
-  else if sp.site == "payee" && hasFlag sp 8 then some "payee-range-estimate"
   else none
 
 def spanLt (a b : Span) : Bool :=
